@@ -17,12 +17,10 @@ func Read[T allowedGenericTypes](reader io.Reader) (result T, err error) {
 func ReadBytes(reader io.Reader, length int) ([]byte, error) {
 	readBytes := make([]byte, length)
 
-	nBytes, err := reader.Read(readBytes)
+	// a reader is allowed to return fewer bytes than requested per call, so read until the buffer is full
+	nBytes, err := io.ReadFull(reader, readBytes)
 	if err != nil {
-		return nil, ierrors.Wrap(err, "failed to read serialized bytes")
-	}
-	if nBytes != length {
-		return nil, ierrors.Errorf("failed to read serialized bytes: read bytes (%d) != size (%d)", nBytes, length)
+		return nil, ierrors.Wrapf(err, "failed to read serialized bytes: read bytes (%d) != size (%d)", nBytes, length)
 	}
 
 	return readBytes, nil
